@@ -77,5 +77,28 @@ pub fn run(args: &Args) {
             }
         }
     }
+    // monitor-only: the owner hands the vault over to another fee collector while protocol fees are pending. A configuration
+    // update moves no funds and no ledger; the next collection pays exactly the pending amount to the NEW collector.
+    for cw20 in [false, true] {
+        for k in 0..3u128 {
+            let fees = (DEC / 100 + k as u128 * DEC / 1000, DEC / 200, if k == 1 { DEC / 1000 } else { 0 });
+            let mut w = match deploy(cw20, fees, [0, 4_000_000, 5_000_000, 3_000_000, 3_000_000]) { Ok(w) => w, Err(_) => continue };
+            w.exec(&Op::Deposit { u: 6, amount: u(1_000_003), sent: u(1_000_003) });
+            w.exec(&Op::Run { script: vec![Act::Loan { amount: u(700_001 + k * 1000), script: vec![Act::RepayQ { neg: false, delta: u(0) }] }] });
+            let b = w.dump();
+            let newc = "collector_two";
+            let old_before = w.asset_bal(w.addr(I_COLL).as_str());
+            let code = w.set_collector(newc);
+            let a = w.dump();
+            out.monitor_evals += 1;
+            let replay = serde_json::json!({"kind": "vault fee collector handed over with pending fees", "asset_cw20": cw20, "fees": [fees.0.to_string(), fees.1.to_string(), fees.2.to_string()], "pending": b.pend.to_string()});
+            if code != 0 { out.monitor_fail("C05", "the factory owner could not change the vault's fee collector", replay.clone()); continue; }
+            if a != b || w.asset_bal(w.addr(I_COLL).as_str()) != old_before { out.monitor_fail("C05", "changing the fee collector moved funds or changed a ledger (assets backing a share changed)", replay.clone()); }
+            let c = w.exec(&Op::Collect { u: 8 });
+            let a2 = w.dump();
+            if c != 0 || a2.pend != 0 || w.asset_bal(newc) != b.pend || a2.bal + b.pend != a.bal { out.monitor_fail("C05", "after the hand-over the pending fees did not reach the new collector exactly once", replay.clone()); }
+            out.count("collector_handover");
+        }
+    }
     out.finish();
 }
